@@ -36,6 +36,7 @@ FREE = (
     "e\u0301\u2126\uf900\U0002f800",  # not in Unicode normal form: decomposed, compatibility singletons (BMP and astral)
     "a \n\t b",       # blanks and a tab next to an inner newline
     "p\u2028q\u0085r",  # line separators other than LF that XML 1.0 carries as ordinary characters
+    "R&amp;D &lt;1&gt; &#65; &copy;",  # text that literally contains entity-like sequences (escaped once on the wire, decoded once)
 )
 NUMS = ("1", "-1", "1.5", "-0.25", "10.", ".5", "1:30", "-1:30:15", "12:30.5", "0:00:01.25")
 # the last value is longer than any line length a serialiser might wrap at (120 characters of base64)
